@@ -116,6 +116,8 @@ class _SynodicInterface(
         plane_coords = config.plane_coords
         direction = config.direction
         trajectories = [traj.as_arrays() for traj in domain_obj.trajectories]
+        # config.interp_kind is a RefineConfig; the backend compares against the plain string
+        interp_kind = getattr(config.interp_kind, "interp_kind", config.interp_kind)
         return _SynodicMapProblem(
             plane_coords=plane_coords,
             direction=direction,
@@ -123,7 +125,7 @@ class _SynodicInterface(
             normal=normal,
             offset=offset,
             trajectories=trajectories,
-            interp_kind=config.interp_kind,
+            interp_kind=interp_kind,
             segment_refine=options.refine.segment_refine,
             tol_on_surface=options.refine.tol_on_surface,
             dedup_time_tol=options.refine.dedup_time_tol,
